@@ -83,7 +83,7 @@ def run(tier, corrupt=False):
                                      f"({'raising ' + o.get('exc', '') if b['raised'] else 'returning'})", {"kind": kind, "prog": prog, "mode0": mode0, "fuel": fuel, "input": payload, "calls": calls})
     cov = {"states": s1["states"] + s2["states"] + s3["states"], "transitions": s1["transitions"] + s2["transitions"] + s3["transitions"],
            "model_runs": [{"mode": "ser+faults", **s1}, {"mode": "hostile+faults", **s2}, {"mode": "bytes+faults", **s3}],
-           "traces_validated_against_impl": n, "executions_that_hit_the_injected_fault": nfault, "programs": [p["name"] for p in sel],
+           "traces_validated_against_impl": n, "executions_that_hit_the_injected_fault": nfault, "programs": len(sel), "program_names": [p["name"] for p in sel],
            "samples": [{"kind": meta[0][0], "prog": meta[0][1], "mode0": meta[0][2], "fault_at": meta[0][3]}, {"kind": meta[-1][0], "prog": meta[-1][1], "mode0": meta[-1][2], "fault_at": meta[-1][3], "data": meta[-1][4]}],
            "exhaustive": False,
            "explanation": "programs with chunked sections / nested structs / switches x both entry modes x bounded objects or corrupted bytes x failure injected at each of the first primitive calls"}
